@@ -6,19 +6,12 @@
   `Translate.volume`, `Rotate.volume`, and the point counts of density sampling.
 
   Conventions (see Geom.lean): one parameter row `ρ` at a time; scalars are any `K` with the core
-  notation classes plus `Transc K` (π and √); the driver runs `Float`, the proofs `ℝ` / ordered fields.
+  notation classes plus `Transc K` (π and √; the class and `norm2` are those of GeomSample.lean); the driver runs `Float`, the proofs `ℝ` / ordered fields.
   Outcomes the model does not turn into a number are explicit (`VErr`), never a default value.
 -/
-import TPV.Model.Geom
+import TPV.Model.GeomSample
 
 namespace TPV.Geom
-
-/-- the non-field operations volumes need -/
-class Transc (K : Type) where
-  sqrt : K → K
-  pi : K
-
-instance : Transc Float := ⟨Float.sqrt, 3.141592653589793⟩
 
 /-- domain expressions with everything `volume()` looks at: the `disjoint` / `contained`
     declarations of unions and cuts, user-set volumes (`set_volume`), and `Point`. -/
@@ -96,8 +89,6 @@ variable {K : Type} [Add K] [Sub K] [Mul K] [Div K] [Neg K] [LE K] [DecidableLE 
   [OfNat K 0] [OfNat K 1] [OfNat K 2] [OfNat K 3] [OfNat K 4] [Transc K]
 
 def det2 (ax ay bx cy : K) : K := ax * cy - ay * bx
-
-def norm2 (x y : K) : K := Transc.sqrt (x * x + y * y)
 
 def intervalVol (l u : K) : K := u - l
 /-- `Parallelogram._get_volume` (after the repair: the absolute value of the determinant) -/
@@ -254,21 +245,21 @@ def densityCount (d v : Rat) : Int := Rat.ceil (d * v)
 def densityCountProd (d v : Rat) : Int := Rat.floor (d * v)
 
 /-- barycentric inner grid of `Parallelogram/Triangle.sample_grid`: `linspace(0,1,nᵢ+2)[1:-1]` on both axes -/
-def baryGrid (n1 n2 : Nat) : List (Rat × Rat) :=
+def baryLattice (n1 n2 : Nat) : List (Rat × Rat) :=
   (List.range n2).flatMap fun j => (List.range n1).map fun i =>
     (mkRat ((i : Nat) + 1 : Nat) (n1 + 1), mkRat ((j : Nat) + 1 : Nat) (n2 + 1))
 
 /-- the triangle keeps the grid points with `x + y ≤ 1` -/
-def triGrid (n1 n2 : Nat) : List (Rat × Rat) := (baryGrid n1 n2).filter fun p => decide (p.1 + p.2 ≤ 1)
+def triGrid (n1 n2 : Nat) : List (Rat × Rat) := (baryLattice n1 n2).filter fun p => decide (p.1 + p.2 ≤ 1)
 
 /-- `Triangle.sample_grid(d=…)` after the repair: the surplus over `n = ceil(d·area)` is cut off -/
 def triDensityGrid (n n1 n2 : Nat) : List (Rat × Rat) := (triGrid n1 n2).take n
 
 /-- … and those strictly inside (the diagonal ones are at the mercy of float rounding in the code) -/
-def triGridStrict (n1 n2 : Nat) : List (Rat × Rat) := (baryGrid n1 n2).filter fun p => decide (p.1 + p.2 < 1)
+def triGridStrict (n1 n2 : Nat) : List (Rat × Rat) := (baryLattice n1 n2).filter fun p => decide (p.1 + p.2 < 1)
 
 /-- `Interval.sample_grid`: `linspace(0,1,n+2)[1:-1]` scaled to `[l,u]` -/
-def intervalGrid (l u : Rat) (n : Nat) : List Rat :=
+def intervalLattice (l u : Rat) (n : Nat) : List Rat :=
   (List.range n).map fun i => l + (u - l) * mkRat ((i : Nat) + 1 : Nat) (n + 1)
 
 section gridDims
